@@ -69,7 +69,7 @@ def real_link(job, keep=False):
             if path not in order:
                 order.append(path)
         rc, out = ldlink.link(root, job["text"], archives, extra_args=["--no-check-sections"], file_order=order)
-        res = {"status": "ok" if rc == 0 else "ld-fail", "log": out[:1500]}
+        res = {"status": "ok" if rc == 0 else "ld-fail", "log": out[:6000]}
         if rc == 0:
             syms, secs = ldlink.read_image(root)
             res["syms"] = syms
